@@ -177,6 +177,7 @@ def run(ctx):
     rng = ctx.rng
     n = ctx.scale(4000, 120000, 20000)
     cases, reqs, impls = [], [], []
+    recent = []
     for i in range(n):
         if ctx.time_left() < 25:
             ctx.notes.append("stopped early on time budget")
@@ -209,6 +210,14 @@ def run(ctx):
         if ia[0] == "err" and ia[1] == "sorry":
             ia = ["err", "sorry", "not_a_possible_choice", [enc(w.value) for w in mdef.words]] \
                 if ia[2].startswith("Not a possible choice") else ia
+        recent.append((mtext, stext, multi, outcome_key(ia)))
+        if i % 4 == 3 and not d19:
+            f2 = check_composite(rng, recent[-6:])
+            if f2:
+                ctx.count("composite_failures")
+                ctx.fail(f2[0], f2[1])
+            ctx.count("composite_masters")
+        del recent[:-6]
         cases.append({"master": mtext, "source": stext, "fail": f, "d19": d19})
         reqs.append(["choice_fetch", [word_j(w) for w in mdef.words], attr_j(mdef.optional), [word_j(w) for w in sw], False])
         impls.append(ia)
@@ -218,6 +227,60 @@ def run(ctx):
             flush(ctx, cases, reqs, impls)
             cases, reqs, impls = [], [], []
     flush(ctx, cases, reqs, impls)
+
+
+def outcome_key(ia):
+    """outcome of one choice fetch without line numbers"""
+    if ia[0] == "ok":
+        return ("ok", tuple((w[0], w[1]) for w in ia[1]))
+    return tuple(str(x) for x in ia[:3])
+
+
+def fetch_outcome(m, src, path):
+    ia = call_j(lambda: m.fetch(source=src).get(path).objects[0], lambda r: [word_j(w) for w in r.words])
+    if ia[0] == "err" and ia[1] == "sorry" and ia[2].startswith("Not a possible choice"):
+        ia = ["err", "sorry", "not_a_possible_choice"]
+    return outcome_key(ia)
+
+
+def check_composite(rng, recs):
+    """the same choice parameters as members of ONE master (same leaf name `v` in sibling scopes, one converter object
+    per type expression), addressed by successive fetches on that master object and then all at once: every outcome must
+    be the one the parameter has in isolation (which is the outcome compared with the model)"""
+    recs = [r for r in recs if r[2] == recs[-1][2]][-3:]
+    if len(recs) < 2:
+        return None
+    mt = "".join("s%d {\n%s}\n" % (j, r[0]) for j, r in enumerate(recs))
+    try:
+        m = freephil.parse(input_string=mt)
+    except BaseException as e:
+        return ({"master": mt}, "composite master does not parse: %s" % e)
+    order = list(range(len(recs)))
+    rng.shuffle(order)
+    for j in order + order[:1]:
+        st = "s%d.v = %s\n" % (j, recs[j][1])
+        got = fetch_outcome(m, freephil.parse(input_string=st), "s%d.v" % j)
+        want = recs[j][3]
+        if want[0] == "err" and want[2] == "not_a_possible_choice":
+            want = want[:3]
+        if got != want:
+            return ({"master": mt, "source": st, "order": order},
+                    "parameter s%d.v inside a master with same-named choice parameters: %r, in isolation: %r" % (j, got, want))
+    oks = [j for j in order if recs[j][3][0] == "ok"]
+    if len(oks) >= 2:
+        st = "".join("s%d.v = %s\n" % (j, recs[j][1]) for j in oks)
+        try:
+            r = m.fetch(source=freephil.parse(input_string=st))
+        except BaseException as e:
+            return ({"master": mt, "source": st}, "fetch of individually accepted selections raised %s: %s" % (type(e).__name__, e))
+        for j in oks:
+            got = ("ok", tuple((w.value, None if w.quote_token is None else w.quote_token)
+                               for w in r.get("s%d.v" % j).objects[0].words))
+            want = ("ok", tuple((dec(w[0]), w[1]) for w in recs[j][3][1]))
+            if [x[0] for x in got[1]] != [x[0] for x in want[1]]:
+                return ({"master": mt, "source": st}, "parameter s%d.v fetched together with its siblings: %r, in isolation: %r"
+                        % (j, got[1], want[1]))
+    return None
 
 
 def flush(ctx, cases, reqs, impls):
